@@ -495,7 +495,10 @@ def depositTotal (ds : List (Nat × Nat)) : Nat := (ds.map (·.2)).sum
 
 /-- `handleRPCFundAccounts` (`server.go:413-453`) -/
 def decideFund (h : Host) (cid : Nat) (deposits : List (Nat × Nat)) (sig : Sig) : Decision :=
-  if !fundValid cid deposits sig then reject .badreq
+  -- `ReadRequest` reads at most `maxLen` bytes, sized for `MaxAccountBatchSize` entries (`encoding.go`):
+  -- a longer list does not decode
+  if maxAccountBatch < deposits.length then reject .decoding
+  else if !fundValid cid deposits sig then reject .badreq
   else
     match lockForRevision h cid with
     | .error e => reject e
@@ -532,7 +535,8 @@ def replenishDeposits (bal : Nat → Nat) (target : Nat) (accounts : List Nat) :
 /-- `handleRPCReplenishAccounts` / `handleRPCReplenishPools` (`server.go:455-598`) -/
 def decideReplenish (h : Host) (pool : Bool) (cid : Nat) (accounts : List Nat) (target : Nat) (chal : Sig)
     (second : Option Sig) : Decision :=
-  if !replenishValid cid accounts target chal then reject .badreq
+  if maxAccountBatch < accounts.length then reject .decoding
+  else if !replenishValid cid accounts target chal then reject .badreq
   else if hasDup accounts then reject .badreq
   else
     match lockForRevision h cid with
